@@ -14,11 +14,12 @@ from . import monitor as M
 def model_constants(inst):
     c = inst.const
     comp = sorted(c["tests"], key=lambda t: int(t[1:]))
-    flats = sorted(c["flat"], key=lambda t: int(t[1:]))
+    # an eagerly parsed graph has no flat nodes at all
+    flats = sorted(c["flat"], key=lambda t: int(t[1:])) if inst.lazy else []
     tests = ["t0"] + comp + flats
     setup = {"t0": set()}
     for t in comp:
-        setup[t] = set(c["tests"][t]["setup"])
+        setup[t] = {x for x in c["tests"][t]["setup"] if x == "t0" or x in c["tests"] or x in flats}
     for f in flats:
         setup[f] = {"t0"}
     gets = {t: {s for s in c["tests"][t]["gets"] if M.producible(s)} if t in c["tests"] else set() for t in tests}
@@ -32,6 +33,7 @@ def model_constants(inst):
         "stateful": {t for t in comp if not c["tests"][t].get("stateless")},
         "removable": {t for t in comp if c["tests"][t]["removable"]},
         "closure": {f: set(c["flat"][f]["closure"]) for f in flats},
+        "incompatible": list(getattr(inst, "incompatible", [])),
         "workers": list(c["workers"]), "unrestricted": [w for w in c["workers"] if w not in c["restricted"]],
         "states": sorted(produced),
     }
@@ -53,6 +55,7 @@ def write_mc(work, name, mc, pools, spec, statuses, maxtries=1, maxconc=1, rerun
             f.write("%s == %s\n" % (const, fun(mc["tests"], lambda t: tla(mc[key][t]))))
         f.write("MCClosure == %s\n" % (fun(mc["flat"], lambda t: tla(mc["closure"][t]), "f", "MCFlat") if mc["flat"] else "<<>>"))
         f.write("MCUnrestricted == %s\n" % tla(set(mc["unrestricted"])))
+        f.write("MCIncompatible == %s\n" % tla(set(mc.get("incompatible", []))))
         locs = ["shared"] + ws
         f.write("MCInitPools == {%s}\n" % ",\n  ".join(
             "[x \\in MCW \\cup {\"shared\"} |-> " + " ".join(("CASE" if i == 0 else "[]") + " x = %s -> %s" % (tla(x), tla(set(p.get(x, ()))))
@@ -61,7 +64,7 @@ def write_mc(work, name, mc, pools, spec, statuses, maxtries=1, maxconc=1, rerun
     with open(os.path.join(work, name + ".cfg"), "w") as f:
         f.write("SPECIFICATION %s\nCONSTANTS\n W <- MCW\n WOrder <- MCWOrder\n Tests <- MCTests\n Root = \"t0\"\n FlatLeaves <- MCFlat\n ObjRoots <- MCObjRoots\n"
                 " Stateful <- MCStateful\n Setup <- MCSetup\n Gets <- MCGets\n Sets <- MCSets\n UnsetSets <- MCUnsetSets\n Removable <- MCRemovable\n"
-                " Closure <- MCClosure\n Unrestricted <- MCUnrestricted\n InitPools <- MCInitPools\n Statuses <- MCStatuses\n MaxTries = %d\n MaxConc = %d\n"
+                " Closure <- MCClosure\n Unrestricted <- MCUnrestricted\n Incompatible <- MCIncompatible\n InitPools <- MCInitPools\n Statuses <- MCStatuses\n MaxTries = %d\n MaxConc = %d\n"
                 " RerunSet <- MCRerun\n StopSet <- MCStop\n MaxBounce = %d\n Lazy = %s\n" % (spec, maxtries, maxconc, maxbounce, "TRUE" if lazy else "FALSE"))
         for inv in invariants:
             f.write("INVARIANT %s\n" % inv)
